@@ -166,7 +166,7 @@ func shortKey(k string) string {
 // paramNames returns receiver+parameter names of a signature / function.
 func paramNames(fn *ssa.Function, sig *types.Signature, invoke bool) []string {
 	var names []string
-	if fn != nil {
+	if fn != nil && len(fn.Params) > 0 {
 		for _, p := range fn.Params {
 			names = append(names, p.Name())
 		}
